@@ -13,8 +13,10 @@ AR_NUM = {"NA": 0, "RO": 1, "WO": 2, "RW": 3}
 
 
 class Reg:
-    def __init__(self, name, length, acc, ty, off=None, init=None):
+    def __init__(self, name, length, acc, ty, off=None, init=None, sym_off=False, sym_len=False):
         self.name, self.len, self.acc, self.ty, self.off, self.init = name, length, acc, ty, off, init
+        # the offset / length spelled as a path to a constant instead of a literal (same layout either way)
+        self.sym_off, self.sym_len = sym_off, sym_len
         # filled by Map.resolve()
         self.addr = None
         self.endian = None
@@ -146,16 +148,16 @@ def scalar_map(endian, base, accs, with_init):
 def layout_map():
     a = Frag("A", 0, "LE", [
         Reg("R0", 2, "RW", "u16", init=("int", 0x1234)),
-        Reg("R1", 4, "RO", "u32", off=8),
+        Reg("R1", 4, "RO", "u32", off=8, sym_off=True),
         Reg("R2", 1, "WO", "u8"),
         Reg("R3", 2, "RW", "u16", off=2, init=("int", 0xBEEF)),
-        Reg("R4", 4, "RW", "u32"),
+        Reg("R4", 4, "RW", "u32", sym_len=True),
         Reg("R5", 8, "RO", "u64", off=6),
     ])
     b = Frag("B", 0x20, "BE", [
         Reg("R0", 4, "RW", "u32", init=("int", 0x01020304)),
         Reg("R1", 2, "WO", "i16", init=("int", -2)),
-        Reg("R2", 6, "RW", "String", off=10, init=("str", b"ab")),
+        Reg("R2", 6, "RW", "String", off=10, init=("str", b"ab"), sym_off=True),
     ])
     c = Frag("C", 0x1C, "LE", [
         Reg("R0", 2, "RO", "u16"),
@@ -335,13 +337,22 @@ def render_rust(maps):
                         consts.append("    const %s: %s = %s::from_bits(%d);" % (cn, r.ty, r.ty, v))
                     else:
                         consts.append("    const %s: %s = (%d);" % (cn, value_ty(r), v))
+        for fi, f in enumerate(m.frags):
+            for ri, r in enumerate(f.regs):
+                if r.sym_off and r.off is not None:
+                    consts.append("    const OFF_%d_%d: usize = %d;" % (fi, ri, r.off))
+                if r.sym_len:
+                    consts.append("    const LEN_%d_%d: usize = %d;" % (fi, ri, r.len))
         o += consts
         for fi, f in enumerate(m.frags):
             o.append("    #[register_map(base = %d, endianness = %s)]" % (f.base, f.endian))
             o.append("    pub enum %s {" % f.name)
             for ri, r in enumerate(f.regs):
-                off = ", offset = %d" % r.off if r.off is not None else ""
-                o.append("        #[register(len = %d, access = %s, ty = %s%s)]" % (r.len, r.acc, rust_ty(r), off))
+                off = ""
+                if r.off is not None:
+                    off = ", offset = OFF_%d_%d" % (fi, ri) if r.sym_off else ", offset = %d" % r.off
+                ln = "LEN_%d_%d" % (fi, ri) if r.sym_len else "%d" % r.len
+                o.append("        #[register(len = %s, access = %s, ty = %s%s)]" % (ln, r.acc, rust_ty(r), off))
                 if r.init is None:
                     o.append("        %s," % r.name)
                 else:
